@@ -111,6 +111,16 @@ def segments : S → S → List S
 the list of its segments -/
 def splitAllPaths (p : S) : List S := segments p []
 
+/-- the loop of Go's `splitAllPaths` on a clean relative (`abs = false`) or absolute path, given as its
+segment list deepest segment first (`file :: up` means `Base = file`, `Dir = up`). `stopEq = true` is the
+former stop condition `dir == file` (F22), `false` the current one (`file` is `.` or `/`, i.e. no segment
+is left). For a relative path `Dir` as a string equals `Base` exactly when one segment equal to `file`
+is left above it; for an absolute path `Dir` starts with `/` and never equals a segment. -/
+def splitWalk (stopEq abs : Bool) : List S → List S → List S
+  | [], parts => parts
+  | file :: up, parts =>
+    if stopEq && !abs && up == [file] then parts else splitWalk stopEq abs up (file :: parts)
+
 /-! ## `applyPathModifiers` -/
 
 /-- what is left after the last `d` (everything if there is none) — `.*\/` replaced by "" -/
